@@ -782,3 +782,52 @@ Proof.
   all: apply first_match_none; intros m Hm'; specialize (M m ltac:(lia)); rewrite <- (E m) in M by lia;
        destruct (R sf input r m []); [reflexivity|discriminate].
 Qed.
+
+(* ---------------------------------------------------------------- flag x (C14) *)
+Lemma spec_is_match_D xpath a sf input : (N.of_nat (length input) < umax)%N -> ok_a xpath a = true ->
+  exists r, spec_parse xpath (show_a a) = Valid r /\ spec_is_match sf input r = Dmatch input (s_i sf) (s_m sf) a.
+Proof.
+  intros Hfit Hok. destruct (spec_parse_grammar xpath input sf Hfit a Hok) as (r & E & Sr & _).
+  exists r. split; [exact E|]. unfold spec_is_match, Dmatch.
+  assert (G : forall l, (forall m, In m l -> m <= length input) ->
+            existsb (fun i => match ends sf input r i with [] => false | _ => true end) l
+            = existsb (fun m => match Da input (s_i sf) (s_m sf) a m with [] => false | _ => true end) l).
+  { induction l as [|m t IH]; intros Hl; [reflexivity|]. cbn [existsb]. rewrite IH by (intros; apply Hl; right; auto).
+    f_equal. assert (Hm : m <= length input) by (apply Hl; left; reflexivity). specialize (Sr m).
+    destruct (ends sf input r m) as [|x1 t1] eqn:E1; destruct (Da input (s_i sf) (s_m sf) a m) as [|x2 t2] eqn:E2; auto.
+    - exfalso. apply (proj2 (Sr x2 Hm)). left. reflexivity.
+    - exfalso. apply (proj1 (Sr x1 Hm)). left. reflexivity. }
+  apply G. intros m Hm. apply in_seq in Hm. lia.
+Qed.
+
+(* with flag x the pattern text may contain white space: what is compiled, and what the specification
+   parses, is the text with the white space outside classes removed (the model's stripper; it equals the
+   specification's by C14_strip).  If that text is a pattern of the grammar, the verdicts agree. *)
+Theorem grammar_x_end_to_end xpath a w fls input :
+  ok_a xpath a = true -> existsb (N.eqb 59) fls = false -> (N.of_nat (length input) < umax)%N ->
+  strip_ws w 0%Z false = show_a a ->
+  match spec_flags xpath fls with
+  | Valid sf =>
+      s_q sf = false -> s_x sf = true ->
+      exists re r, regex_new true xpath w fls = Ok re /\ spec_parse xpath (strip_ws w 0%Z false) = Valid r
+                   /\ is_match re input = Ok (spec_is_match sf input r)
+  | _ => True
+  end.
+Proof.
+  intros Hok Hsep Hfit Hw. pose proof (parse_flags_spec xpath fls Hsep) as PF. unfold regex_new.
+  destruct (parse_flags xpath fls) as [fl|e| |] eqn:Efl; destruct (spec_flags xpath fls) as [sf| |] eqn:Esf;
+    try contradiction; try exact I; try (destruct e; contradiction).
+  destruct PF as [(A1 & A2 & A3 & A4 & A5) Hx]. intros Hsq Hsx. cbn [rbind].
+  rewrite (compile_x_same true fl w) by congruence. rewrite Hw.
+  set (fl' := {| f_case := f_case fl; f_multi := f_multi fl; f_single := f_single fl; f_ws := false;
+                 f_literal := false; f_xpath := f_xpath fl |}).
+  assert (Hok' : ok_a (f_xpath fl') a = true) by (cbn [f_xpath fl']; rewrite Hx; exact Hok).
+  destruct (compile_grammar_D fl' a [] Hok' eq_refl eq_refl eq_refl) as (prog & Ec & M0).
+  destruct (compile_grammar_D fl' a input Hok' eq_refl eq_refl Hfit) as (prog' & Ec' & M).
+  rewrite Ec in Ec'. injection Ec' as <-. rewrite Ec. cbn [rbind].
+  destruct (spec_is_match_D xpath a sf input Hfit Hok) as (r & Er & Es).
+  destruct (matches prog [] 0 st0) as [s0|s0| |k0]; try contradiction; cbn [mres_bool rbind];
+    (eexists; exists r; split; [reflexivity|]; split; [exact Er|]); unfold is_match; cbn [r_prog];
+    (destruct (matches prog input 0 st0) as [s1|s1| |k1]; try contradiction; cbn [mres_bool rbind]; f_equal;
+     rewrite Es, <- A1, <- A2; symmetry; exact M).
+Qed.
